@@ -297,11 +297,16 @@ func runC11(r *report.Run) {
 				continue
 			}
 			seams++
-			for _, back := range []uint32{20, 8, 1} {
-				if b < back || b+20 > 0xFFFFFF {
-					continue
-				}
-				st, en := b-back, b+20
+			// ranges: from 20, 8, 1 bytes before the seam to 20 after it; and blocks lying inside one
+			// 16-byte cell on either side of it (unaligned start, start == end, the whole cell)
+			type rg struct{ st, en uint32 }
+			var ranges []rg
+			if b >= 20 && b+20 <= 0xFFFFFF {
+				ranges = append(ranges, rg{b - 20, b + 20}, rg{b - 8, b + 20}, rg{b - 1, b + 20},
+					rg{b + 5, b + 9}, rg{b + 3, b + 3}, rg{b, b + 15}, rg{b + 1, b + 15}, rg{b - 11, b - 7}, rg{b - 16, b - 2})
+			}
+			for _, rr := range ranges {
+				st, en := rr.st, rr.en
 				for i := range buf {
 					buf[i] = sentinel
 				}
@@ -406,7 +411,7 @@ func runC11(r *report.Run) {
 	r.Set("by_class", perClass)
 	r.Set("mirror_layers", int64(maxLayer))
 	r.Set("writes_executed", writes)
-	r.Set("rule", "block reads: Bus.EaDump from 20, 8 and 1 bytes before every seam of the map (attached/unattached or another array) to 20 bytes after it must equal the single reads and leave holes untouched; reads: all 2^24 bus addresses x 4 passes (byte k of a unique location id planted in every ROM/SRAM/WRAM array cell) identify exactly which cell backs each address; writes: addresses grouped into mirror layers (j-th alias of each cell), each layer written ascending/descending with two complementary value patterns and all three arrays compared in full with the prediction after each run; non-trivial = address that both the emulator backs with an array cell and the LoROM mapper translates")
+	r.Set("rule", "block reads: Bus.EaDump from 20, 8 and 1 bytes before every seam of the map (attached/unattached or another array) to 20 bytes after it, and over blocks inside one 16-byte cell on either side of the seam, must equal the single reads and leave holes untouched; reads: all 2^24 bus addresses x 4 passes (byte k of a unique location id planted in every ROM/SRAM/WRAM array cell) identify exactly which cell backs each address; writes: addresses grouped into mirror layers (j-th alias of each cell), each layer written ascending/descending with two complementary value patterns and all three arrays compared in full with the prediction after each run; non-trivial = address that both the emulator backs with an array cell and the LoROM mapper translates")
 	r.Set("exhaustive", true)
 	r.Sample(c11Case{"read", 0x808000})
 	r.Sample(c11Case{"write", 0x001FFF})
